@@ -150,6 +150,7 @@ static ssize_t vp_io_sendfile(int out_fd, int in_fd, off_t *offset, size_t count
 	vp_io.ret = r;
 	return r;
 }
+static long vp_pread_script[6]; static int vp_pread_script_n, vp_pread_script_i;
 static ssize_t vp_io_pread(int fd, void *buf, size_t n, off_t off)
 {
 	size_t avail, j; long r;
@@ -157,7 +158,15 @@ static ssize_t vp_io_pread(int fd, void *buf, size_t n, off_t off)
 	VP_ASSERT(off >= 0, "harness: pread at a negative offset");
 	avail = (size_t)off < vp_file_size ? vp_file_size - (size_t)off : 0;
 	if (n < avail) avail = n;
-	r = vp_io_result(avail);
+	if (vp_pread_script_n > 0) {
+		/* scripted results (a harness case-splits the sequence of short reads so that offsets stay concrete) */
+		VP_ASSERT(vp_pread_script_i < vp_pread_script_n, "harness: more pread calls than scripted");
+		__CPROVER_assume(vp_pread_script_i < vp_pread_script_n);
+		r = vp_pread_script[vp_pread_script_i++];
+		if (r > (long)avail) { __CPROVER_assume(0); }     /* outside the contract: not a behaviour */
+		if (r < 0) errno = EIO;
+	} else
+		r = vp_io_result(avail);
 	for (j = 0; j < VP_FILE_MAX; j++)
 		if ((long)j < r) ((unsigned char *)buf)[j] = vp_file[(size_t)off + j];
 	vp_io.ret = r;
@@ -165,6 +174,7 @@ static ssize_t vp_io_pread(int fd, void *buf, size_t n, off_t off)
 }
 /* mmap: one live mapping at a time is enough for the file-segment code */
 static unsigned char *vp_map_addr; static size_t vp_map_len; static int vp_mmap_calls, vp_munmap_calls;
+static int vp_mmap_mode = -1;     /* -1: success/failure solver-chosen per call, 0: succeeds, 1: fails (ENOMEM) */
 static unsigned char *vp_io_exact(size_t k)
 {
 	unsigned char *p;
@@ -190,7 +200,7 @@ static void *vp_io_mmap(void *addr, size_t len, int prot, int flags, int fd, off
 	VP_ASSERT(addr == NULL && prot == PROT_READ, "harness: unexpected mmap arguments");
 	VP_ASSERT(len > 0, "C15: mmap of length 0 (EINVAL)");
 	VP_ASSERT(off >= 0 && off % vp_pagesize == 0, "C15: mmap offset is not a multiple of the page size (EINVAL)");
-	if (vp_bool()) { errno = ENOMEM; return MAP_FAILED; }
+	if (vp_mmap_mode == 1 || (vp_mmap_mode < 0 && vp_bool())) { errno = ENOMEM; return MAP_FAILED; }
 	VP_ASSERT(vp_map_addr == NULL, "harness bound: second live mapping");
 	p = vp_io_exact(len);
 	for (j = 0; j < 24; j++)
